@@ -16,6 +16,8 @@
 #include "impl/ctx_impl.h"
 #include "impl/signature_impl.h"
 #include "impl/net_async_impl.h"
+#include <ksi/pkitruststore.h>
+#include <ksi/crc32.h>
 #include "vh.h"
 #include "ksi_exec.h"
 
@@ -168,6 +170,39 @@ static int dispatch(void) {
 		int rc = KSI_PublicationsFile_parse(ctxs[atoi(tok[1])], b, n, &p); vh_exact_free(b, n);
 		KSI_PublicationsFile_free(pubfiles[pi]); pubfiles[pi] = p; return rc;
 	}
+	if (!strcmp(c0, "truststore")) { /* truststore <c> [cafile ...]: a trust store without system defaults */
+		KSI_CTX *c = ctxs[atoi(tok[1])]; KSI_PKITruststore *pki = NULL; int i; int rc = KSI_PKITruststore_new(c, 0, &pki); if (rc) return rc;
+		for (i = 2; i < ntok; i++) { rc = KSI_PKITruststore_addLookupFile(pki, tok[i]); if (rc) { KSI_PKITruststore_free(pki); return rc; } }
+		return KSI_CTX_setPKITruststore(c, pki); }
+	if (!strcmp(c0, "constraints")) { /* constraints <c> [oid=value ...] */
+		KSI_CertConstraint arr[16]; int i, n = 0; char *eq;
+		for (i = 2; i < ntok && n < 15; i++) { eq = strchr(tok[i], '='); if (!eq) continue; *eq = 0; arr[n].oid = tok[i]; arr[n].val = eq + 1; n++; }
+		arr[n].oid = NULL; arr[n].val = NULL;
+		return KSI_CTX_setDefaultPubFileCertConstraints(ctxs[atoi(tok[1])], arr); }
+	if (!strcmp(c0, "pubfileinfo")) { KSI_PublicationsFile *p = pubfiles[atoi(tok[1])]; size_t sl = 0; KSI_LIST(KSI_CertificateRecord) *cl = NULL; KSI_LIST(KSI_PublicationRecord) *pl = NULL; int rc;
+		rc = KSI_PublicationsFile_getSignedDataLength(p, &sl); kx_out(" signedlen=%zu", sl);
+		KSI_PublicationsFile_getCertificates(p, &cl); KSI_PublicationsFile_getPublications(p, &pl);
+		kx_out(" ncert=%zu npub=%zu", KSI_CertificateRecordList_length(cl), KSI_PublicationRecordList_length(pl)); return rc; }
+	if (!strcmp(c0, "pubfileverify")) { KSI_CTX *c = ctxs[atoi(tok[1])]; KSI_PublicationsFile *p = pubfiles[atoi(tok[2])]; const char *api = kv("api");
+		if (api && !strcmp(api, "ctx")) return KSI_verifyPublicationsFile(c, p);
+		return KSI_PublicationsFile_verify(p, c); }
+	if (!strcmp(c0, "pubfilelookup")) { /* pubfilelookup <c> <p> bytime|nearest|latest|cert|bystring <arg|-> */
+		KSI_CTX *c = ctxs[atoi(tok[1])]; KSI_PublicationsFile *p = pubfiles[atoi(tok[2])]; KSI_PublicationRecord *pr = NULL; KSI_Integer *t = NULL; int rc = -1; int owned = 0;
+		if (!strcmp(tok[3], "cert")) { size_t n; unsigned char *b = kx_hexarg(tok[4], &n); KSI_OctetString *id = NULL; KSI_PKICertificate *crt = NULL; KSI_OctetString_new(c, b, n, &id); vh_exact_free(b, n);
+			rc = KSI_PublicationsFile_getPKICertificateById(p, id, &crt); KSI_OctetString_free(id);
+			if (rc == KSI_OK && crt) { unsigned char *der = NULL; size_t dl = 0; if (KSI_PKICertificate_serialize(crt, &der, &dl) == KSI_OK) { kx_out(" found=1 dercrc=%lu derlen=%zu", KSI_crc32(der, dl, 0), dl); KSI_free(der); } } else kx_out(" found=0");
+			return rc; }
+		if (strcmp(tok[4], "-")) KSI_Integer_new(c, strtoull(tok[4], NULL, 0), &t);
+		if (!strcmp(tok[3], "bytime")) rc = KSI_PublicationsFile_getPublicationDataByTime(p, t, &pr);
+		else if (!strcmp(tok[3], "nearest")) { rc = KSI_PublicationsFile_getNearestPublication(p, t, &pr); owned = 1; }
+		else if (!strcmp(tok[3], "latest")) rc = KSI_PublicationsFile_getLatestPublication(p, t, &pr);
+		else if (!strcmp(tok[3], "bystring")) rc = KSI_PublicationsFile_getPublicationDataByPublicationString(p, tok[4], &pr);
+		KSI_Integer_free(t);
+		if (rc == KSI_OK && pr) { KSI_PublicationData *pd = NULL; KSI_Integer *pt = NULL; KSI_DataHash *ph = NULL; const unsigned char *imp; size_t il;
+			KSI_PublicationRecord_getPublishedData(pr, &pd); KSI_PublicationData_getTime(pd, &pt); KSI_PublicationData_getImprint(pd, &ph); KSI_DataHash_getImprint(ph, &imp, &il);
+			kx_out(" found=1 time=%llu", (unsigned long long)KSI_Integer_getUInt64(pt)); kx_outhex("hash", imp, il); } else kx_out(" found=0");
+		if (owned) KSI_PublicationRecord_free(pr);
+		return rc; }
 	if (!strcmp(c0, "pubfilefree")) { int i = atoi(tok[1]); KSI_PublicationsFile_free(pubfiles[i]); pubfiles[i] = NULL; return 0; }
 	if (!strcmp(c0, "ping")) { kx_out(" pong=1"); return 0; }
 	{ int handled = 0; int rc = kx_net_dispatch(tok, ntok, &handled); if (handled) return rc; }
